@@ -1,5 +1,6 @@
 """C16 -- DF filter admits only the listed formats; DF counters are exact."""
 from sqgen import *
+import os
 import pyspec
 
 ID = "C16"
@@ -135,8 +136,83 @@ def oracle(parts, outcome, obs):
     return None
 
 
+# ---- counter capacity -------------------------------------------------------------------------------------------
+# C16_counter_capacity / C16_counters_fit tie the model's unbounded counters to the declared integer type of df_count.
+# When that theorem no longer checks (or when VERIF_COUNTER_SOAK=1) the implementation is searched for a stream on
+# which a counter leaves the exact count: one valid DF17 frame repeated through a FIFO, counter lines read from the
+# refreshes.  Quick tier: up to 70 000 frames (8/16-bit counters); thorough tier or VERIF_COUNTER_SOAK=1: 2^32 + 2^22
+# frames (about 70 minutes at 10^6 frames/s; release profile only).
+SEARCHING = [False]
+
+
+def gen_search(seed, tier):
+    SEARCHING[0] = tier
+    return []
+
+
+def counter_soak(exe, n, timeout, upd="1"):
+    import subprocess, threading, tempfile, time, vcore
+    d = tempfile.mkdtemp(prefix="c16soak", dir=vcore.BUILD)
+    fifo = os.path.join(d, "feed")
+    os.mkfifo(fifo)
+    line = (hx(df17(0x4840D6, 0x202CC371C32CE0), 112) + "\n").encode()
+    chunk = line * 50000
+
+    def writer():
+        try:
+            with open(fifo, "wb") as f:
+                for _ in range(n // 50000):
+                    f.write(chunk)
+                f.write(line * (n % 50000))
+        except (BrokenPipeError, OSError):
+            pass
+    p = subprocess.Popen([exe, "-s", fifo, "-c", "-u=" + upd, "-o", "x"], stdout=subprocess.PIPE, stderr=subprocess.PIPE)
+    t = threading.Thread(target=writer, daemon=True)
+    t.start()
+    prev, bad, t0 = 0, None, time.time()
+    for l in p.stdout:
+        if l.startswith(b"DF17:"):
+            try:
+                v = int(l.split()[0][5:])
+            except ValueError:
+                bad = "counter line %r" % l
+                break
+            if v < prev or v <= 0 or v > n:
+                bad = "after %d counted DF17 frames the counter line shows DF17:%d (stream: %d copies of %s)" % (prev, v, n, line.decode().strip())
+                break
+            prev = v
+        if time.time() - t0 > timeout:
+            break
+    p.kill()
+    err = p.stderr.read()[-300:].decode("utf-8", "replace")
+    rc = p.wait()
+    if bad is None and b"panicked" in err.encode():
+        bad = "panic after about %d counted DF17 frames: %s" % (prev, err)
+    try:
+        os.unlink(fifo); os.rmdir(d)
+    except OSError:
+        pass
+    return bad
+
+
+def extra_checks(profile):
+    import vcore
+    soak = os.environ.get("VERIF_COUNTER_SOAK") == "1"
+    if not (SEARCHING[0] or soak):
+        return []
+    exe = os.path.join(vcore.TARGET, profile, "squitterator")
+    if soak or SEARCHING[0] == "thorough":
+        if profile != "release":
+            return []
+        n, to = 2 ** 32 + 2 ** 22, 4 * 3600
+    else:
+        n, to = 70000, 300
+    bad = counter_soak(exe, n, to, "1" if n > 10 ** 6 else "-1")
+    return [("C16-counter-capacity", bad)] if bad else []
+
+
 CLAIM = {
-    "text": "Theorems C16_filter_admits_only_listed / C16_unlisted_inert / C16_counters_exact (Coq, closed): for every stream and option record a line is applied only if its DF is listed under -f, every other line leaves table and counters unchanged, and after any stream the counter of each DF equals the number of applied lines of that DF (ascending keys, positive counts; nothing is counted without -c); conversely a frame with a non-zero address whose DF is listed IS applied, from any state, and the outcome depends only on the SET of listed formats, not on their order or repetition (C16_applied_iff, C16_listed_is_applied, C16_filter_order_irrelevant). Tied to the code through the built CLI (last counter line, rows) and the reader thread on streams mixing all DF values, every -f shape, +/- -c.",
+    "text": "Theorems C16_filter_admits_only_listed / C16_unlisted_inert / C16_counters_exact, C16_counters_fit / C16_counter_capacity (the exact count fits the integer type declared for df_count, regenerated from src/counters.rs, for every stream of fewer than 2^63 lines -- defect D14 was the i32 it had) (Coq, closed): for every stream and option record a line is applied only if its DF is listed under -f, every other line leaves table and counters unchanged, and after any stream the counter of each DF equals the number of applied lines of that DF (ascending keys, positive counts; nothing is counted without -c); conversely a frame with a non-zero address whose DF is listed IS applied, from any state, and the outcome depends only on the SET of listed formats, not on their order or repetition (C16_applied_iff, C16_listed_is_applied, C16_filter_order_irrelevant). Tied to the code through the built CLI (last counter line, rows) and the reader thread on streams mixing all DF values, every -f shape, +/- -c.",
     "note": "Counters live for one read_lines call. Printing of the counter line is modelled in Model/Display.v and compared with CLI stdout.",
     "technique": "Coq proof by induction over arbitrary line lists (multiset-count invariant); CLI/reader differential runs + python oracle",
 }
